@@ -12,13 +12,26 @@ pub mod c10;
 pub mod c11;
 pub mod c13;
 pub mod c14;
+#[cfg(feature = "shuttle")]
+pub mod c17;
+#[cfg(feature = "shuttle")]
+pub mod c17_corpus;
 pub mod c18;
 pub mod c19;
 pub mod c19_chain;
 pub mod c19_gen;
 pub mod c19_ops;
 pub mod c19_world;
+#[cfg(feature = "shuttle")]
+pub mod c20;
 
 pub fn all() -> Vec<&'static dyn Check> {
-    vec![&c01::C01, &c03::C03, &c04::C04, &c05::C05, &c06::C06, &c07::C07, &c08::C08, &c09::C09, &c10::C10, &c11::C11, &c13::C13, &c14::C14, &c18::C18, &c19::C19]
+    #[allow(unused_mut)]
+    let mut v: Vec<&'static dyn Check> = vec![&c01::C01, &c03::C03, &c04::C04, &c05::C05, &c06::C06, &c07::C07, &c08::C08, &c09::C09, &c10::C10, &c11::C11, &c13::C13, &c14::C14, &c18::C18, &c19::C19];
+    #[cfg(feature = "shuttle")]
+    {
+        v.push(&c17::C17);
+        v.push(&c20::C20);
+    }
+    v
 }
